@@ -45,6 +45,9 @@ func baseCtx() pongo2.Context {
 		"fn":    func() string { return "fr" },
 		"pair":  func(a, b *pongo2.Value) *pongo2.Value { return pongo2.AsSafeValue(a.String() + "/" + b.String()) },
 		"svals": []string{"ab cd", "Zz", ""}, "nvals": []int{5, 0},
+		// values that arrive wrapped: *pongo2.Value as map value, slice item, element of a []any, struct field
+		"mv": map[string]*pongo2.Value{"k": pongo2.AsValue(3)}, "lv": []*pongo2.Value{pongo2.AsValue("a"), pongo2.AsValue(7)},
+		"anyl": []any{pongo2.AsValue(4), pongo2.AsValue("b c")}, "st": struct{ V *pongo2.Value }{pongo2.AsValue(6)},
 		"items": []string{"i0", "i1", "i2", "i3", "i4", "i5", "i6", "i7", "i8", "i9", "i10", "i11"},
 	}
 }
@@ -68,6 +71,16 @@ func valueOf(sp string, ctx pongo2.Context) any {
 		return []*pongo2.Value{pongo2.AsValue(ctx["n"]), pongo2.AsValue(ctx["two"])}
 	case "m.k":
 		return "mk"
+	case "mv.k":
+		return 3
+	case "lv.1":
+		return 7
+	case "anyl.0":
+		return 4
+	case "anyl.1":
+		return "b c"
+	case "st.V":
+		return 6
 	case "fn()":
 		return "fr"
 	}
@@ -157,6 +170,30 @@ func (c *Case) Exec(t *eng.T) {
 		src = "{% macro mm(p) %}<{{ p }}>{% endmacro %}{{ mm(" + expr + ") }}"
 		if oerr == nil {
 			want = "<" + printed(res) + ">"
+		}
+	case "omitted-param-scope":
+		// inside a macro whose parameters sep and two are omitted by the caller, the names are bound to nothing - also
+		// in scopes opened inside the body - although the caller's context has entries of these names
+		src = "{% macro mm(p, sep, two) %}{% for i in \"ab\" %}{{ p" + c.chainSrc() + " }};{% endfor %}{% with w=1 %}{{ p" + c.chainSrc() + " }}{% endwith %}{% endmacro %}{{ mm(" + c.Input + ") }}"
+		c2 := pongo2.Context{}
+		for k, v := range ctx {
+			c2[k] = v
+		}
+		c2["sep"], c2["two"] = nil, nil
+		r2, e2 := c.compose(c2, start)
+		oerr = e2
+		if e2 == nil {
+			want = printed(r2) + ";" + printed(r2) + ";" + printed(r2)
+		}
+	case "loop-var":
+		// the chain applied to the variable of a loop over a list written in the template
+		src = "{% for x in [" + c.Input + ", " + c.Input + "] %}{{ x" + c.chainSrc() + " }};{% endfor %}{% for x in [" + c.Input + "] %}{% if x" + c.chainSrc() + " %}T{% else %}F{% endif %}{% endfor %}"
+		if oerr == nil {
+			tf := "F"
+			if res.IsTrue() {
+				tf = "T"
+			}
+			want = printed(res) + ";" + printed(res) + ";" + tf
 		}
 	case "reeval":
 		// the same written expression evaluated once per loop pass with OTHER values of the names it uses
@@ -515,8 +552,8 @@ func run(r *eng.Runner) {
 			calls = append(calls, FC{Name: f.name, Arg: a}) // a == "" : written without parameter
 		}
 	}
-	inputs := []string{"s", "l", "n", "e", "missing", `"Lit q"`, "7", "m.k", "fn()", `"12.34"`, "1", `[s, "x"]`, `[n, two]`}
-	positions := []string{"output", "if", "for", "with", "set", "macro-arg", "macro-default", "filter-tag", "scoped-arg", "subscript", "binds-tighter", "with-sibling", "with-sibling-old", "macro-arg-first", "call-arg-first", "array-item-first", "reeval"}
+	inputs := []string{"s", "l", "n", "e", "missing", `"Lit q"`, "7", "m.k", "fn()", `"12.34"`, "1", `[s, "x"]`, `[n, two]`, "mv.k", "lv.1", "anyl.0", "anyl.1", "st.V"}
+	positions := []string{"output", "if", "for", "with", "set", "macro-arg", "macro-default", "filter-tag", "scoped-arg", "subscript", "binds-tighter", "with-sibling", "with-sibling-old", "macro-arg-first", "call-arg-first", "array-item-first", "reeval", "loop-var", "omitted-param-scope"}
 	maxLen := 3
 	if !r.Quick() {
 		maxLen = 4
